@@ -1,6 +1,6 @@
 (* C12 -- Block Attributes apply once, to the next block only (partial).  Property theorems only. *)
 From Rimu Require Import Base Regex RegexParse Str Types Tables Guards State Inline Block
-  Frame FrameBlock FrameInst OptionsLemmas MiscLemmas MoreLemmas AttrInject RegexAnalysis PlainDoc ParaDoc GreedyLoop AttrDoc.
+  Frame FrameBlock FrameInst OptionsLemmas MiscLemmas MoreLemmas AttrInject RegexAnalysis PlainDoc ParaDoc GreedyLoop AttrDoc Emphasis ParaInstances.
 
 (* injection into a non-empty tag consumes every pending class, id, css and attribute *)
 Theorem C12_consume : forall tag s r s',
@@ -95,3 +95,12 @@ Example C12_ex_class_paragraph :
   match doc_render 10 ($".note-1" ++ [10] ++ $"hello *w* x") (document_init S0) with
   | Ok (html, s) => str_eqb html $"<p class=""note-1"">hello <em>w</em> x</p>" && is_empty (p_classes s) | _ => false end = true.
 Proof. vm_compute. reflexivity. Qed.
+
+(* ... and with real markup in the paragraph: the class line followed by a paragraph holding an emphasis *)
+Theorem C12_class_emphasis_paragraph : forall n a w c pre body post s,
+  quiet_default s -> parse_skip (s_mode s) = false -> cls_name_ok a w ->
+  In c safe_first -> over safe_alphabet (c :: pre) -> over safe_alphabet body -> body_ok body -> over safe_alphabet post ->
+  doc_render (S (S (S (S (S n))))) (ba_line a w ++ 10 :: (c :: pre) ++ star :: body ++ star :: post) s =
+  Ok (cls_html (a :: w) ++ (escape (c :: pre) ++ $"<em>" ++ escape body ++ $"</em>" ++ escape post) ++ $"</p>", s).
+Proof. exact class_emphasis_paragraph. Qed.
+Print Assumptions C12_class_emphasis_paragraph.
